@@ -16,6 +16,8 @@ import AferoVerif.Engine.Archive
 import AferoVerif.Engine.Sftp
 import AferoVerif.Engine.Gcs
 import AferoVerif.Engine.Walk
+import AferoVerif.Engine.IOFS
+import AferoVerif.Engine.TempFile
 import AferoVerif.Engine.Conc
 open AferoVerif
 
@@ -45,5 +47,7 @@ def main (args : List String) : IO UInt32 := do
   | ["sftp"] => loop stdin stdout Engine.Sftp.stepLine Engine.Sftp.init; return 0
   | ["gcs"] => loop stdin stdout Engine.Gcs.stepLine {}; return 0
   | ["walk"] => loop stdin stdout Engine.Walk.stepLine []; return 0
+  | ["iofs"] => loop stdin stdout Engine.IOFS.stepLine {}; return 0
+  | ["temp"] => loop stdin stdout Engine.TempFile.stepLine {}; return 0
   | ["conc"] => loop stdin stdout Engine.Conc.stepLine (); return 0
   | _ => IO.eprintln "usage: driver <engine>"; return 2
